@@ -82,6 +82,7 @@ import (
 	"github.com/caddyserver/caddy/v2/modules/caddyhttp/reverseproxy"
 	_ "github.com/caddyserver/caddy/v2/modules/caddyhttp/reverseproxy/fastcgi"
 	"github.com/caddyserver/caddy/v2/modules/caddyhttp/templates"
+	_ "github.com/caddyserver/caddy/v2/modules/caddyhttp/templates"
 
 	"verif/harness/internal/core"
 )
@@ -99,6 +100,7 @@ type obs struct {
 	out                          http.Header       // the attempt that succeeded (the last one)
 	attempts                     []http.Header     // every attempt handed to the transport, in order
 	upstreams                    []string          // … and the upstream each one was directed to
+	incBody                      string            // op inc: what the included sub-request answered
 	env                          map[string]string // lb=3: the CGI parameters the FastCGI responder received
 	envSets                      [3]map[string]bool
 	cookie                       string         // Secure attribute of the sticky cookie(s): "1", "0", "mixed", "-" (none set)
@@ -234,6 +236,9 @@ func (DynSource) GetIPRanges(r *http.Request) []netip.Prefix {
 	return nil
 }
 
+// virtualRemote is the RemoteAddr templates' httpInclude gives its virtual request (tplcontext.go).
+const virtualRemote = "127.0.0.1:10000"
+
 var fcgiNames = [3]string{"HTTP_X_FORWARDED_FOR", "HTTP_X_FORWARDED_PROTO", "HTTP_X_FORWARDED_HOST"}
 
 // fcgiCollision: did the client send a field that is not one of the three forwarding fields but is spelled
@@ -284,6 +289,7 @@ type kase struct {
 	hdrs       []hdrField
 	tbl        string // as given on the line ("" when the line is being built)
 	fails      int    // 0..2 round trips fail before one succeeds (proxy retry loop)
+	inc        bool   // op inc: the request asks for /outer, whose template does {{httpInclude "/inner"}}
 	noResample bool   // internal: do not repeat the request (fastcgi map-order sampling)
 	rt         string // as given on the line: net/netip's verdict on every range string
 	lb         int    // load-balancing policy: 0 default, 1 client_ip_hash over three upstreams, 2 cookie
@@ -381,10 +387,10 @@ func (k *kase) line() string {
 
 func parseLine(line string) (*kase, bool) {
 	f := strings.Fields(line)
-	if len(f) != 16 || f[0] != "req" {
+	if len(f) != 16 || (f[0] != "req" && f[0] != "inc") {
 		return nil, false
 	}
-	k := &kase{}
+	k := &kase{inc: f[0] == "inc"}
 	var ok bool
 	if strings.HasPrefix(f[1], "dyn:") {
 		k.srvDyn = true
@@ -568,6 +574,9 @@ func (k *kase) table() string {
 		}
 	}
 	scan(k.remote)
+	if k.inc {
+		scan(virtualRemote) // the address templates' httpInclude gives its virtual request
+	}
 	for _, h := range k.hdrs {
 		scan(h.value)
 	}
@@ -797,7 +806,17 @@ func (p *prop) server(k *kase) (*caddyhttp.Server, error) {
 	if len(k.hT) > 0 {
 		rp["trusted_proxies"] = k.hT
 	}
-	srv["routes"] = []any{map[string]any{"handle": []any{probe, rp}}}
+	plain := map[string]any{"Content-Type": []string{"text/plain"}}
+	srv["routes"] = []any{
+		// op inc: /outer is a template that includes /inner through a virtual sub-request (templates' httpInclude);
+		// /inner answers with the client address and trusted flag attributed to the request it is served for
+		map[string]any{"match": []any{map[string]any{"path": []string{"/inner"}}}, "handle": []any{
+			map[string]any{"handler": "static_response", "headers": plain, "body": "{http.vars.client_ip}|{http.vars.trusted_proxy}"}}},
+		map[string]any{"match": []any{map[string]any{"path": []string{"/outer"}}}, "handle": []any{
+			map[string]any{"handler": "templates"},
+			map[string]any{"handler": "static_response", "headers": plain, "body": "{{httpInclude \"/inner\"}}"}}},
+		map[string]any{"handle": []any{probe, rp}},
+	}
 	httpApp, _ := json.Marshal(map[string]any{"servers": map[string]any{"s": srv}})
 	cfg := &caddy.Config{
 		Admin: &caddy.AdminConfig{Disabled: true},
@@ -873,8 +892,12 @@ func (p *prop) serve(k *kase, hdrs []hdrField) (string, *obs, error) {
 			o.dynRanges = []netip.Prefix{}
 		}
 	}
+	path := "/"
+	if k.inc {
+		path = "/outer"
+	}
 	r := &http.Request{
-		Method: "GET", URL: &url.URL{Path: "/"}, RequestURI: "/",
+		Method: "GET", URL: &url.URL{Path: path}, RequestURI: path,
 		Proto: "HTTP/1.1", ProtoMajor: 1, ProtoMinor: 1,
 		Header: h, Host: k.host, RemoteAddr: k.remote, Body: http.NoBody,
 	}
@@ -901,6 +924,10 @@ func (p *prop) serve(k *kase, hdrs []hdrField) (string, *obs, error) {
 	r = r.WithContext(ctx)
 	w := httptest.NewRecorder()
 	s.ServeHTTP(w, r)
+	if k.inc {
+		o.incBody = w.Body.String()
+		return "inner=" + core.Hex(o.incBody) + " status=" + strconv.Itoa(w.Code), o, nil
+	}
 	if k.lb == 3 {
 		o.env = fcgi().take(fcgiID)
 	}
@@ -999,6 +1026,9 @@ func (p *prop) Run(line string) core.Outcome {
 	if !ok {
 		return core.Outcome{Impl: "bad-op"}
 	}
+	if k.inc && k.srvDyn {
+		return core.Outcome{Impl: "bad-op"} // the virtual request has its own context: no request-scoped source
+	}
 	if k.rt != k.rangeVerdicts() {
 		return core.Outcome{Impl: "bad-table", Tags: []string{"bad-table"}}
 	}
@@ -1025,6 +1055,10 @@ func (p *prop) Run(line string) core.Outcome {
 			Failures: []core.Failure{{Class: "harness-provision-error", What: err.Error()}}}
 	}
 	out := core.Outcome{Impl: impl}
+	if k.inc {
+		p.incOracle(k, impl, &out)
+		return out
+	}
 	p.tagsAndOracle(k, impl, o, &out)
 	return out
 }
